@@ -22,7 +22,7 @@ from . import key_driver as kd
 NOTOL = 99
 ALL_FLOATS = set(range(1, 17))
 ALL_OTHERS = {21, 22, 23, 24, 25, 26, 27, 28, 29, 30}
-ALL_SHAPES = set(range(1, 24))
+ALL_SHAPES = set(range(1, 26))
 ALIAS_SHAPES = {22, 23}        # calls that contain equal containers: also made with ONE shared object in their place
 # per tolerance: floats that merge / tie at that tolerance, and a few non-floats (quick tier)
 QUICK_ALPHA = {
@@ -36,11 +36,13 @@ DEVIATIONS = {
     'deep_dict_nonstr_keys': dict(FloatIds={2, 3}, OtherIds=set(), ShapeIds={7, 11}, TolIds={10}),
     'shallow_str_listified': dict(FloatIds={2}, OtherIds={23, 26}, ShapeIds={1}, TolIds={10}),
     'iter_error_propagates': dict(FloatIds={2}, OtherIds={30}, ShapeIds={1, 2, 6}, TolIds={10}),
+    'deep_mapping_from_keys': dict(FloatIds={2, 3}, OtherIds=set(), ShapeIds={24}, TolIds={10}),
+    'shallow_dict_from_keys': dict(FloatIds={2}, OtherIds=set(), ShapeIds={25}, TolIds={10}),
     'deep_rebuild_raises': dict(FloatIds={2, 3}, OtherIds=set(), ShapeIds={17, 18, 20}, TolIds={10}),
 }
 STR = {100: 'a', 101: 'b', 105: 'ab'}
 RSTR = {v: k for k, v in STR.items()}
-TOP_DICT_SHAPES = {6, 7, 10, 14, 16}      # an argument is itself a dict: not given to shallow_round (see DESIGN)
+TOP_DICT_SHAPES = set()      # (dict arguments are given to shallow_round as well: it must leave them alone)
 RECV = []
 ALGS = ['inf', 'lru', 'lfu', 'mru', 'rr', 'no']
 import collections
@@ -149,7 +151,7 @@ def _build(n, memo=None):
     if t == 'ipnet':
         import ipaddress
         return ipaddress.ip_network('10.0.0.0/%d' % n['v'])
-    kids = [build(c, memo) for c in n['c']] if t != 'dict' else None
+    kids = [build(c, memo) for c in n['c']] if t not in ('dict', 'cmap') else None
     if t == 'ntuple':
         return NT(*kids)
     if t == 'list':
@@ -160,12 +162,12 @@ def _build(n, memo=None):
         return set(kids)
     if t == 'fset':
         return frozenset(kids)
-    if t == 'dict':
+    if t in ('dict', 'cmap'):
         d = {}
         for it in n['c']:
             k = STR[it['v']] if it['d'] == 1 else int(it['v'])
             d[k] = build(it['c'][0], memo)
-        return d
+        return collections.ChainMap(d) if t == 'cmap' else d
     raise ValueError(n)
 
 
@@ -212,6 +214,12 @@ def describe(x):
     if type(x) in (set, frozenset):
         kids = sorted((describe(c) for c in x), key=lambda n: json.dumps(n, sort_keys=True))
         return {'t': 'set' if type(x) is set else 'fset', 'v': 0, 'd': 1, 'c': kids}
+    if type(x) is collections.ChainMap:
+        if len(x.maps) != 1 or type(x.maps[0]) is not dict:
+            return leaf('other', 6)
+        n = describe(x.maps[0])
+        n['t'] = 'cmap'
+        return n
     if type(x) is dict:
         items = []
         for k, v in x.items():
